@@ -286,3 +286,24 @@ impl std::ops::DerefMut for SerializerConfigRef<'_, '_> {
 		}
 	}
 }
+
+#[cfg(ten0_serde_avro_fast_verif)]
+impl SerializerConfig<'_> {
+	/// Verification hook (H4): (len, capacity) of every pooled field buffer, and
+	/// (len, capacity) of every pooled super-buffer
+	#[doc(hidden)]
+	pub fn verif_pools(&self) -> (Vec<(usize, usize)>, Vec<(usize, usize)>) {
+		(
+			self.buffers
+				.field_reordering_buffers
+				.iter()
+				.map(|b| (b.len(), b.capacity()))
+				.collect(),
+			self.buffers
+				.field_reordering_super_buffers
+				.iter()
+				.map(|b| (b.len(), b.capacity()))
+				.collect(),
+		)
+	}
+}
